@@ -119,10 +119,18 @@ func (c *Ctx) Shard() int   { return c.shard }
 func (c *Ctx) Shards() int  { return c.shards }
 func (c *Ctx) Replay() bool { return c.replay }
 func (c *Ctx) N(q, t int) int {
+	n := t
 	if c.Quick() {
-		return q
+		n = q
 	}
-	return t
+	// sanitizer passes of the quick tier run a fixed fraction of the case counts
+	if d, err := strconv.Atoi(os.Getenv("VERIF_COUNT_DIV")); err == nil && d > 1 && n > 1 {
+		n = (n + d - 1) / d
+		if n < 2 {
+			n = 2
+		}
+	}
+	return n
 }
 
 // Case is one generated case.
@@ -742,7 +750,17 @@ func runParent(opt Options, tier string, seed int64) int {
 		}
 	}
 	// race logs
-	races := ParseRaceLogs(work, opt.RacePkgs)
+	racePkgs := opt.RacePkgs
+	if sc := os.Getenv("VERIF_RACE_SCOPE"); sc != "" {
+		// sanitizer passes of workers that were not written for the race detector: only reports
+		// with a frame in the named packages are verdicts ("none": count reports, judge none)
+		if sc == "none" {
+			racePkgs = []string{"\x00none"}
+		} else {
+			racePkgs = strings.Split(sc, ",")
+		}
+	}
+	races := ParseRaceLogs(work, racePkgs)
 	agg.Counters["race_reports_total"] += int64(races.Total)
 	agg.Counters["race_reports_outside_scope"] += int64(races.Outside)
 	for _, r := range races.Reports {
@@ -751,6 +769,7 @@ func runParent(opt Options, tier string, seed int64) int {
 
 	// group violations by key
 	known := loadKnown()
+	pass := os.Getenv("VERIF_PASS")
 	type grp struct {
 		key   string
 		items []violation
@@ -794,7 +813,13 @@ func runParent(opt Options, tier string, seed int64) int {
 		v := g.items[0]
 		rp := map[string]any{"property": opt.Property, "tier": tier, "seed": seed, "shards": n, "stream": v.Stream, "index": v.Index, "key": key, "what": v.What, "witness": v.Witness, "occurrences": len(g.items)}
 		b, _ := json.MarshalIndent(rp, "", " ")
-		path := filepath.Join(outRoot(), "replay", opt.Property+"-"+hashKey(key)+".json")
+		passTag := ""
+		if pass != "" {
+			passTag = "-" + pass
+			rp["sanitizer_pass"] = pass
+			b, _ = json.MarshalIndent(rp, "", " ")
+		}
+		path := filepath.Join(outRoot(), "replay", opt.Property+passTag+"-"+hashKey(key)+".json")
 		os.WriteFile(path, b, 0o644)
 		lines = append(lines, fmt.Sprintf("violation key=%s what=%s", key, v.What))
 		lines = append(lines, fmt.Sprintf("VIOLATION property=%s replay=%s", opt.Property, path))
@@ -828,12 +853,42 @@ func runParent(opt Options, tier string, seed int64) int {
 		"wall_s":      time.Since(start).Seconds(),
 		"violations":  nViol,
 	}
+	evPath := filepath.Join(outRoot(), "evidence", opt.Property+".json")
+	if pass != "" {
+		// a sanitizer pass (same worker, other build: -race/checkptr, -asan) adds its own
+		// observations to the evidence the main pass has just written
+		var main map[string]any
+		if b, err := os.ReadFile(evPath); err == nil && json.Unmarshal(b, &main) == nil && main["coverage"] != nil {
+			mc, _ := main["coverage"].(map[string]any)
+			sp, _ := mc["sanitizer_passes"].(map[string]any)
+			if sp == nil {
+				sp = map[string]any{}
+			}
+			sp[pass] = map[string]any{
+				"build": os.Getenv("VERIF_PASS_BUILD"), "tier_counts": tier, "count_divisor": os.Getenv("VERIF_COUNT_DIV"), "seed": seed,
+				"evaluations": agg.Evaluations, "distinct_nontrivial": len(non), "counters": agg.Counters,
+				"inconclusive": agg.Inconclusive, "violations": nViol, "shards_incomplete": incomplete,
+				"wall_s": time.Since(start).Seconds(),
+			}
+			mc["sanitizer_passes"] = sp
+			if v, ok := main["violations"].(float64); ok {
+				main["violations"] = int(v) + nViol
+			}
+			if w, ok := main["wall_s"].(float64); ok {
+				main["wall_s"] = w + time.Since(start).Seconds()
+			}
+			ev = main
+		}
+	}
 	b, _ := json.MarshalIndent(ev, "", " ")
 	os.MkdirAll(filepath.Join(outRoot(), "evidence"), 0o755)
-	os.WriteFile(filepath.Join(outRoot(), "evidence", opt.Property+".json"), b, 0o644)
+	os.WriteFile(evPath, b, 0o644)
 
 	for _, l := range lines {
 		fmt.Println(l)
+	}
+	if pass != "" {
+		fmt.Printf("[sanitizer pass %s] ", pass)
 	}
 	fmt.Printf("%s %s seed=%d: evaluations=%d distinct_nontrivial=%d violations=%d known=%d inconclusive=%v wall=%.1fs\n",
 		opt.Property, tier, seed, agg.Evaluations, len(non), nViol, nKnown, agg.Inconclusive, time.Since(start).Seconds())
